@@ -275,6 +275,9 @@ def semantic_public_api(ctx, F, doc_shifts, doc_width):
                 if back != raw:
                     ctx.violate("dt.layout", "as_int", f"DateTime::try_from({raw:#010x}).as_int() = {back}", as_int["file"], as_int["line"])
     except (Unsupported, Panic) as e:
+        import os
+        if os.environ.get("VERIF_DEBUG"):
+            print("semantic_public_api:", type(e).__name__, e)
         return None
     return n
 
